@@ -47,6 +47,7 @@ F = [
 for f in F:
     f['status'] = 'open'
 FIXED = [
+ 'fixed: property=C02 bfae290 hang when a node body itself ends with asyncio.CancelledError (nobody cancelled the run): the cancelled helper task was skipped by the error scan (witnesses/D35.json)',
  'fixed: property=C02 8af1c59 a one-of candidate that is also consumed directly by another node: the direct consumer never became ready and the run hung (witnesses/D34.json); also C10 C03 C05',
  'fixed: property=C15 c19c0ea two parameters of one node bound to the same upstream node (or the same named switch) collapsed into one graph edge and only the last parameter was supplied (witnesses/D33.json, witnesses/D33-build.json); also C03',
  'fixed: property=C19 c62de43 a node result was published before its artifact save finished: with a slow store the save was cancelled at run end and the artifact lost (witnesses/D32.json)',
